@@ -8,6 +8,7 @@
 //	pd    -> analysis/lint.ParseDirectives on a one-declaration file carrying the comment
 //	sup   -> lintcmd.parseDirectives + (line|file)Ignore.match   (via verif hook)
 //	fi    -> lintcmd.success? + lintcmd.filterIgnored            (via verif hook)
+//	u1k   -> unused.Graph + SerializedGraph.Results on a synthetic package (no hook)
 package main
 
 import (
@@ -17,13 +18,16 @@ import (
 	"fmt"
 	"go/parser"
 	"go/token"
+	"go/types"
 	"os"
 	"path/filepath"
+	"sort"
 	"strconv"
 	"strings"
 
 	"go/ast"
 
+	"honnef.co/go/tools/analysis/facts/generated"
 	"honnef.co/go/tools/analysis/lint"
 	"honnef.co/go/tools/lintcmd"
 	"honnef.co/go/tools/lintcmd/runner"
@@ -291,8 +295,127 @@ func step(line string) (string, error) {
 				hexs(d.Category), hexs(d.Message), sev(d.Severity))
 		}
 		return strings.Join(parts, " "), nil
+	case "u1k":
+		nfiles, err := t.nat()
+		if err != nil {
+			return "", err
+		}
+		nlines, err := t.nat()
+		if err != nil {
+			return "", err
+		}
+		ndir, err := t.nat()
+		if err != nil {
+			return "", err
+		}
+		var dirs []runner.SerializedDirective
+		for i := 0; i < ndir; i++ {
+			d, err := t.directive()
+			if err != nil {
+				return "", err
+			}
+			dirs = append(dirs, d)
+		}
+		if len(t.t) != 0 || nfiles > 8 || nlines > 64 {
+			return "", errBad
+		}
+		return u1k(nfiles, nlines, dirs)
 	}
 	return "", errBad
+}
+
+// u1k runs the real U1000 graph (unused.Graph, the entry point the analyzer's run function
+// uses, with DefaultOptions) on a synthetic package: files f<i>.go, each with one unexported,
+// otherwise unused declaration on every line 3 … nlines+2 (var, const, func, type in turn).
+// The directives are attached to the declaration that starts on their node line, as
+// lint.ParseDirectives would have done for a comment directly above it.  It prints the
+// declarations that end up used.
+func u1k(nfiles, nlines int, sdirs []runner.SerializedDirective) (string, error) {
+	fset := token.NewFileSet()
+	var files []*ast.File
+	byPos := map[[2]string]ast.Node{}
+	for f := 0; f < nfiles; f++ {
+		var b strings.Builder
+		b.WriteString("package p\n\n")
+		for l := 3; l < nlines+3; l++ {
+			switch l % 4 {
+			case 0:
+				fmt.Fprintf(&b, "var v%d_%d = 0\n", f, l)
+			case 1:
+				fmt.Fprintf(&b, "const c%d_%d = 0\n", f, l)
+			case 2:
+				fmt.Fprintf(&b, "func f%d_%d() {}\n", f, l)
+			default:
+				fmt.Fprintf(&b, "type t%d_%d int\n", f, l)
+			}
+		}
+		name := fmt.Sprintf("f%d.go", f)
+		af, err := parser.ParseFile(fset, name, b.String(), parser.ParseComments)
+		if err != nil {
+			return "parse-error", nil
+		}
+		files = append(files, af)
+		for _, d := range af.Decls {
+			byPos[[2]string{name, strconv.Itoa(fset.Position(d.Pos()).Line)}] = d
+		}
+	}
+	info := &types.Info{
+		Types:      map[ast.Expr]types.TypeAndValue{},
+		Defs:       map[*ast.Ident]types.Object{},
+		Uses:       map[*ast.Ident]types.Object{},
+		Implicits:  map[ast.Node]types.Object{},
+		Selections: map[*ast.SelectorExpr]*types.Selection{},
+		Scopes:     map[ast.Node]*types.Scope{},
+		Instances:  map[*ast.Ident]types.Instance{},
+	}
+	pkg, err := (&types.Config{}).Check("example.com/p", fset, files, info)
+	if err != nil {
+		return "type-error", nil
+	}
+	var dirs []lint.Directive
+	for _, sd := range sdirs {
+		n, ok := byPos[[2]string{sd.NodePosition.Filename, strconv.Itoa(sd.NodePosition.Line)}]
+		if !ok {
+			return "", errBad
+		}
+		dirs = append(dirs, lint.Directive{Command: sd.Command, Arguments: sd.Arguments, Node: n})
+	}
+	nodes := unused.Graph(fset, files, pkg, info, dirs, map[string]generated.Generator{}, unused.DefaultOptions)
+	var sg unused.SerializedGraph
+	sg.Merge(nodes)
+	res := sg.Results()
+	type fl struct {
+		file string
+		line int
+	}
+	var used []fl
+	seen := map[fl]bool{}
+	for _, o := range res.Used {
+		k := fl{o.Position.Filename, o.Position.Line}
+		if _, ok := byPos[[2]string{k.file, strconv.Itoa(k.line)}]; ok && !seen[k] {
+			seen[k] = true
+			used = append(used, k)
+		}
+	}
+	for _, o := range res.Unused {
+		if seen[fl{o.Position.Filename, o.Position.Line}] {
+			return "used-and-unused", nil
+		}
+	}
+	if len(res.Used)+len(res.Unused) < nfiles*nlines {
+		return "objects-missing", nil
+	}
+	sort.Slice(used, func(i, j int) bool {
+		if used[i].file != used[j].file {
+			return used[i].file < used[j].file
+		}
+		return used[i].line < used[j].line
+	})
+	out := []string{strconv.Itoa(len(used))}
+	for _, k := range used {
+		out = append(out, hexs(k.file), strconv.Itoa(k.line))
+	}
+	return strings.Join(out, " "), nil
 }
 
 // nonDefault prints the names of the analyzers of cmd/staticcheck that are not enabled by
@@ -314,6 +437,11 @@ func main() {
 	if len(os.Args) > 1 && os.Args[1] == "-nondefault" {
 		nonDefault()
 		return
+	}
+	// unused.(*SerializedGraph).Merge traces every node to os.Stderr; nothing here reads it
+	// (a panic of the runtime still reaches file descriptor 2)
+	if devnull, err := os.OpenFile(os.DevNull, os.O_WRONLY, 0); err == nil {
+		os.Stderr = devnull
 	}
 	in := bufio.NewReaderSize(os.Stdin, 1<<20)
 	out := bufio.NewWriterSize(os.Stdout, 1<<20)
